@@ -4,7 +4,7 @@ set -e
 cd "$(dirname "$0")"
 export GOFLAGS=-mod=mod GOPROXY=off GOSUMDB=off GOTOOLCHAIN=local
 mkdir -p .cache evidence
-(cd lean && lake build)
+(cd lean && lake build && lake build gendriver)
 (cd factgen && go build -o ../.cache/factgen .)
 cp /repo/go.sum harness/go.sum
 (cd harness && go test -c -tags verif -o ../.cache/engines.test ./engines)
